@@ -277,5 +277,33 @@ func dischargeAll(obs []*Oblig, timeoutS int, thorough bool, par int) []SolveRes
 		}(i)
 	}
 	wg.Wait()
+	// second chance: an obligation every solver gave up on is tried again when the pool is quiet, a third of the
+	// processes and four times the time — a timeout that comes from a loaded machine (checks of several properties
+	// running side by side) must not be reported as a violation; one that comes from the code is not cured by it
+	var again []int
+	for i, r := range out {
+		if (r.Status == "timeout" || r.Status == "unknown" || r.Status == "error") && !obs[i].Vacuity {
+			again = append(again, i)
+		}
+	}
+	if len(again) > 0 && len(again) <= 200 {
+		sem2 := make(chan struct{}, max(1, par/3))
+		for _, i := range again {
+			wg.Add(1)
+			sem2 <- struct{}{}
+			go func(i int) {
+				defer wg.Done()
+				defer func() { <-sem2 }()
+				r := discharge(obs[i], timeoutS*4, thorough)
+				r.Tried = append(append([]string{}, out[i].Tried...), append([]string{"second-chance:"}, r.Tried...)...)
+				if r.Status == "unsat" || r.Status == "sat" {
+					out[i] = r
+				} else {
+					out[i].Tried = r.Tried
+				}
+			}(i)
+		}
+		wg.Wait()
+	}
 	return out
 }
